@@ -60,6 +60,7 @@ type Taint struct {
 	p            *Prog
 	sum          map[*ssa.Function]*fnSummary
 	asmWrite     map[string]map[int]bool // body-less function name -> param indices it may write
+	asmResult map[string]string // body-less function name -> "public" | "verdict" (from A2)
 	srcReadFull  map[string]bool         // functions in which io.ReadFull's buffer is a source
 	globalMem    map[*ssa.Global]lbl
 	declass      map[string]bool // functions whose results are public by declaration
@@ -287,6 +288,9 @@ func (t *Taint) isVerdictValue(v ssa.Value, depth int) bool {
 			return false
 		}
 		if declassFns[cal.String()] {
+			return true
+		}
+		if len(cal.Blocks) == 0 && t.asmResult[cal.Name()] == "verdict" && isRepoFunc(cal) {
 			return true
 		}
 		if s, ok := t.sum[cal]; ok && s.retVerdict {
@@ -773,7 +777,11 @@ func (t *Taint) call(s *fnState, in ssa.Instruction, c *ssa.CallCommon, sinks *[
 				s.addMem(s.root(a), l)
 			}
 		}
-		setResult(l, nil)
+		if t.asmResult[callee.Name()] == "public" {
+			setResult(0, nil) // A2: the stored result does not depend on any loaded byte
+		} else {
+			setResult(l, nil)
+		}
 		return
 	}
 	// external functions
